@@ -1,5 +1,11 @@
 //go:build verif
 
+// C15 over the QUIC API: the same ECH clauses hold when the hello travels as QUIC CRYPTO data (QUICClient, and a
+// UQUICClient driving HelloGolang): the Initial-level bytes hide Config.ServerName and name the public name; the
+// server decrypts an inner hello that is the client's real hello - which for QUIC includes the client's
+// quic_transport_parameters - an accepting server completes with ECHAccepted and ServerName on both sides, a
+// rejecting one makes the client fail with ECHRejectionError carrying the retry configs.
+
 package tls
 
 import (
@@ -12,12 +18,6 @@ import (
 
 	"pgregory.net/rapid"
 )
-
-// C15 over the QUIC API: the same ECH clauses hold when the hello travels as QUIC CRYPTO data (QUICClient, and a
-// UQUICClient driving HelloGolang): the Initial-level bytes hide Config.ServerName and name the public name; the
-// server decrypts an inner hello that is the client's real hello - which for QUIC includes the client's
-// quic_transport_parameters - an accepting server completes with ECHAccepted and ServerName on both sides, a
-// rejecting one makes the client fail with ECHRejectionError carrying the retry configs.
 
 type vf15QResult struct {
 	plain                      []byte
